@@ -23,9 +23,9 @@ pub const PATTERNS: [&str; 12] = [
 ];
 pub const BASES: [&str; 5] = ["a", "b", "ab", "a-b", "c"];
 /// letter-free, rich in ties
-pub const VERSIONS: [&str; 16] = [
+pub const VERSIONS: [&str; 22] = [
     "1.0", "1", "1.0.0", "1_0", "1.0pl", "1.0nb0", "01.0", "1.00", "1.0nb1", "1.0rc1", "2", "0.9", "1.0RC1", "3",
-    "1.0pre1", "",
+    "1.0pre1", "", "4294967296", "4294967295", "1.4294967297", "20240101120000", "20230101120000", "1.0nb4294967296",
 ];
 
 fn name() -> BoxedStrategy<String> {
@@ -62,7 +62,8 @@ fn list_strategy(tier: Tier) -> BoxedStrategy<ListCase> {
     let max = tier.pick(6, 7);
     (
         0usize..PATTERNS.len(),
-        prop::collection::vec(name(), 2..=max),
+        // one list in forty is long
+        prop_oneof![39 => prop::collection::vec(name(), 2..=max), 1 => prop::collection::vec(name(), 30..70)],
         prop::collection::vec(
             (prop::collection::vec(any::<u16>(), 8), prop::collection::vec(any::<u16>(), 8)),
             6,
@@ -313,7 +314,7 @@ pub fn check_any(c: &AnyCase, obs: &mut Obs) -> Result<(), String> {
 pub fn property() -> Property {
     Property {
         id: "C06",
-        rule: "Stream 'lists': a pattern of each kind (dewey one/two bounds, glob, '*', alternation, plain) and 2-7 candidate names over bases {a,b,ab,a-b,c} and a letter-free version pool rich in ties (1.0, 1, 1.0.0, 1_0, 1.0pl, 1.0nb0, 01.0, 1.00, 1.0nb1, 1.0rc1, 1.0RC1, 1.0pre1, 2, 0.9, 3, empty), with duplicates and names without '-'. Oracle: for every ordered pair, best_match = None iff neither matches, else the M-dewey maximum of the matching ones with ties to the byte-wise smaller name, and symmetric in its arguments; reducing the list pairwise (None as identity) along 6 generated permutations x 3 association trees (generated, left-deep, right-deep) gives the model's winner. Stream 'arbitrary': arbitrary patterns and names, self-consistency only (result is a matching candidate, the only matching one wins, symmetric, all 6 fold orders of three candidates agree). Non-trivial = at least 2 candidates match and (two of them tie with different text or different bases are involved). Distinct = distinct cases.",
+        rule: "Stream 'lists': a pattern of each kind (dewey one/two bounds, glob, '*', alternation, plain) and 2-7 candidate names over bases {a,b,ab,a-b,c} and a letter-free version pool rich in ties (1.0, 1, 1.0.0, 1_0, 1.0pl, 1.0nb0, 01.0, 1.00, 1.0nb1, 1.0rc1, 1.0RC1, 1.0pre1, 2, 0.9, 3, empty, and components around 2^32 / 14-digit dates); one list in forty has 30-70 candidates, with duplicates and names without '-'. Oracle: for every ordered pair, best_match = None iff neither matches, else the M-dewey maximum of the matching ones with ties to the byte-wise smaller name, and symmetric in its arguments; reducing the list pairwise (None as identity) along 6 generated permutations x 3 association trees (generated, left-deep, right-deep) gives the model's winner. Stream 'arbitrary': arbitrary patterns and names, self-consistency only (result is a matching candidate, the only matching one wins, symmetric, all 6 fold orders of three candidates agree). Non-trivial = at least 2 candidates match and (two of them tie with different text or different bases are involved). Distinct = distinct cases.",
         assumptions: vec!["versions in the model-checked stream are letter-free so that known finding KF-1 cannot interfere"],
         streams: vec![
             random_stream("lists", "candidate lists, model winner, permutations and association trees", list_strategy, |t| t.pick(40_000, 3_000_000), check),
